@@ -130,8 +130,13 @@ class SList:
 
 
 class PDict:
+    """dict with concrete keys; optionally ONE symbolic token key (symtok) holding any value, or - for dicts used
+    as symbolic maps - a (dom, val) array pair over symbolic keys (sym)."""
+
     def __init__(self, d=None):
         self.d = dict(d or {})
+        self.symtok = None  # (key term, value)
+        self.sym = None  # {"dom": Array K->Bool, "val": Array K->V, "vkind": kind, "ksort": sort}
 
 
 class PObj:
@@ -459,11 +464,17 @@ class Executor:
             if not t:
                 raise PathEnd()
             return
+        t0 = t
         t = z3.simplify(t)
         if z3.is_false(t):
             raise PathEnd()
-        if not z3.is_true(t):
-            self.pc.append(t)
+        if z3.is_true(t):
+            return
+        if z3.is_and(t0):  # keep conjuncts as separate facts (syntactic pruning in decide() sees them)
+            for ch in t0.children():
+                self.assume(ch)
+            return
+        self.pc.append(t)
 
     def oblige(self, name, goal, kind="safety", line=0, extra=None):
         """Record a proof obligation under the current path condition, then assume it."""
@@ -659,6 +670,9 @@ class Executor:
 
     def s_Assign(self, s, env):
         v = self.eval(s.value, env)
+        if self.contract.local_views and len(s.targets) == 1 and isinstance(s.targets[0], ast.Name) \
+                and s.targets[0].id in self.contract.local_views and isinstance(v, PList) and not v.items:
+            v = self.contract.local_views[s.targets[0].id](self, env)  # ghost view of a local list, created empty
         for t in s.targets:
             self.assign(t, v, env)
 
@@ -825,6 +839,9 @@ class Executor:
                 if isinstance(cur, (PList, PObj, PDict)):
                     raise Unsupported(f"havoc of field {name} holding {type(cur).__name__}")
                 o.fields[fld] = self.havoc_like(cur, f"{fld}_L{L}")
+            elif name in spec.kinds:
+                if name in env:
+                    env[name] = self.fresh(spec.kinds[name], f"{name}_L{L}")
             elif name in env and not isinstance(env[name], (Func, Builtin, ClassRef)):
                 env[name] = self.havoc_like(env[name], f"{name}_L{L}")
         for hv in spec.havoc:  # contract-provided havoc of heap views
@@ -848,6 +865,8 @@ class Executor:
                 pass
             except _Break:
                 return
+            for i, st in enumerate(spec.steps):
+                self.oblige(f"{tag}/step{i}", self.spec_bool(st, env, spec.hints), "proof-step", L)
             if iter_setup is not None:
                 iter_setup["step"](self, env)
             for i, inv in enumerate(spec.invariants):
@@ -1057,6 +1076,9 @@ class Executor:
         if self.contract.opaque and not self.in_spec and isinstance(e, (ast.Attribute, ast.Subscript, ast.Call)):
             k = self.contract.opaque.get(ast.unparse(e))
             if k is not None:
+                if callable(k):
+                    self.notes.add(f"sub-expression bound by the contract's ghost view: {ast.unparse(e)}")
+                    return k(self, env)
                 self.notes.add(f"opaque sub-expression abstracted to a fresh {k}: {ast.unparse(e)}")
                 return self.fresh(k, "opaque")
         m = getattr(self, "e_" + type(e).__name__, None)
@@ -1367,7 +1389,15 @@ class Executor:
             items = list(container)
         elif isinstance(container, PList):
             items = container.items
+        elif isinstance(container, PDict) and container.sym is not None:
+            return z3.Select(container.sym["dom"], lift(x) if not is_intlike(x) else as_int_term(x))
+        elif isinstance(container, PDict) and container.symtok is not None:
+            if is_sym(x) and lift(container.symtok[0]).eq(lift(x)):
+                return True
+            raise Unsupported("membership of a different key in a dict holding a symbolic token key")
         elif isinstance(container, PDict):
+            if is_sym(x) and not container.d:
+                return False
             items = list(container.d.keys())
         elif isinstance(container, dict):
             items = list(container.keys())
@@ -1590,8 +1620,8 @@ class Executor:
         """Unclamped slice bounds (for byte memories, whose accessors check the bounds themselves)."""
         if sl.step is not None:
             raise Unsupported("slice step")
-        lo = z3.IntVal(0) if sl.lower is None else as_int_term(self.eval(sl.lower, env))
-        hi = n if sl.upper is None else as_int_term(self.eval(sl.upper, env))
+        lo = z3.IntVal(0) if sl.lower is None else as_int_term(self.unopt(self.eval(sl.lower, env), 0, "slice-bound"))
+        hi = n if sl.upper is None else as_int_term(self.unopt(self.eval(sl.upper, env), 0, "slice-bound"))
         return z3.simplify(lo), z3.simplify(hi)
 
     def get_item(self, obj, sl, env, line=0):
@@ -1641,6 +1671,9 @@ class Executor:
         if isinstance(obj, SList):
             i = self.norm_index(as_int_term(idx), obj.ln, line)
             return self.list_elem(obj, i)
+        if isinstance(obj, PDict) and (obj.sym is not None or obj.symtok is not None) or \
+                (isinstance(obj, PDict) and is_sym(idx) and not obj.d):
+            return self.sdict_get(obj, idx, line)
         if isinstance(obj, (PDict, dict)):
             d = obj.d if isinstance(obj, PDict) else obj
             if not is_sym(idx):
@@ -1714,13 +1747,51 @@ class Executor:
             obj.at = z3.Store(obj.at, i, lift(v))
             return
         if isinstance(obj, PDict):
-            if is_sym(idx):
-                raise Unsupported("symbolic key store")
+            if is_sym(idx) or obj.sym is not None:
+                return self.sdict_set(obj, idx, v, line)
+            if obj.symtok is not None:
+                raise Unsupported("concrete key store into a dict holding a symbolic token key")
             obj.d[idx] = v
             return
         if isinstance(obj, (_SDictLike, _Sliceable)):
             return obj.setitem(self, idx, v, line)
         raise Unsupported(f"item assignment on {type(obj).__name__} at L{line}")
+
+    # ---- dicts with symbolic keys
+    def sdict_scalar(self, v):
+        return isinstance(v, (int, str, bool, SInt, SStr, SBool, SRef)) or (isinstance(v, PObj) and "__ref__" in v.fields)
+
+    def sdict_set(self, d, k, v, line):
+        if d.sym is None and not self.sdict_scalar(v):
+            # container value under a symbolic key: a single opaque token slot
+            if d.d:
+                raise Unsupported("symbolic token key in a dict that has concrete keys")
+            if d.symtok is not None and not lift(d.symtok[0]).eq(lift(k)):
+                raise Unsupported("second symbolic token key in one dict")
+            d.symtok = (k, v)
+            return
+        if d.sym is None:
+            if d.d or d.symtok is not None:
+                raise Unsupported("symbolic key store into a dict with concrete keys")
+            kt, vt = lift(k), lift(v)
+            vkind = f"ref:{v.cls}" if isinstance(v, SRef) else ("str" if z3.is_string(vt) else "bool" if z3.is_bool(vt) else "int")
+            d.sym = {"dom": z3.K(kt.sort(), z3.BoolVal(False)), "val": z3.Const(fresh_name("dictval"), z3.ArraySort(kt.sort(), vt.sort())),
+                     "vkind": vkind}
+        kt, vt = lift(k), lift(v) if not is_intlike(v) else as_int_term(v)
+        d.sym["dom"] = z3.Store(d.sym["dom"], kt, z3.BoolVal(True))
+        d.sym["val"] = z3.Store(d.sym["val"], kt, vt)
+
+    def sdict_get(self, d, k, line):
+        if d.symtok is not None:
+            if is_sym(k) and lift(d.symtok[0]).eq(lift(k)):
+                return d.symtok[1]
+            raise Unsupported("lookup of a different key in a dict holding a symbolic token key")
+        if d.sym is None:
+            self.safety(False, "KeyError", "key-present", line)
+            raise PathEnd()
+        kt = lift(k) if not is_intlike(k) else as_int_term(k)
+        self.safety(z3.Select(d.sym["dom"], kt), "KeyError", "key-present", line)
+        return self.ctx.elem_value(d.sym["vkind"], z3.Select(d.sym["val"], kt))
 
     def del_item(self, obj, sl, env, line=0):
         from . import grid as G
@@ -1890,7 +1961,12 @@ class Executor:
         kwargs = {}
         for k in e.keywords:
             if k.arg is None:
-                raise Unsupported("**kwargs call")
+                kv = self.eval(k.value, env)
+                if not isinstance(kv, PDict) or kv.sym is not None or kv.symtok is not None or \
+                        not all(isinstance(x, str) for x in kv.d):
+                    raise Unsupported("**kwargs of a non-literal mapping")
+                kwargs.update(kv.d)
+                continue
             kwargs[k.arg] = self.eval(k.value, env)
         return self.call_value(f, args, kwargs, e.lineno)
 
@@ -2134,7 +2210,9 @@ class Executor:
                 self.path_obls.append(Obligation(f"ascii-input/{p}", list(self.pc) + list(self.hints) + hs,
                                                  z3.InRe(lift(env[p]), asc), "pre-derived", 0))
         if self.paths == 1:
-            self.path_obls.append(Obligation("cover/requires-satisfiable", list(self.pc), None, "cover", 0, None, "sat"))
+            # vacuity guard: the precondition (plus an optional witness hint that only narrows it) is satisfiable
+            hint = [self.spec_bool(h, env) for h in c.cover_hints]
+            self.path_obls.append(Obligation("cover/requires-satisfiable", list(self.pc) + hint, None, "cover", 0, None, "sat"))
         for h in c.hints:
             self.add_hint(h, env)
         body_env = dict(env)
